@@ -330,9 +330,12 @@ def defs_of(n, var):
     return False
 
 
-def reaching_defs(cfg, var):
-    """{node: set of def nodes of `var` that reach the *entry* of node} (classic forward may-analysis)."""
+def reaching_defs(cfg, var, entry_def=False):
+    """{node: set of def nodes of `var` that reach the *entry* of node} (classic forward may-analysis).  With entry_def the
+    function entry counts as a definition (the value a parameter arrives with)."""
     defs = [n for n in cfg.nodes if defs_of(n, var)]
+    if entry_def:
+        defs.append(cfg.entry)
     IN = {n: set() for n in cfg.nodes}
     OUT = {n: set() for n in cfg.nodes}
     work = list(cfg.nodes)
